@@ -72,7 +72,7 @@ def gen_nested_mutable(rng, depth=0):
 
 
 def gen_case(rng):
-  regs = G.gen_registry(rng, rng.randint(1, 3), w_opaque_default=0.15)
+  regs = G.gen_registry(rng, rng.randint(1, 3), w_opaque_default=0.15, w_posonly=0.2)
   # one Python function registered again under another name, with a deny / allow list of its own: which signature
   # defaults are recorded is a matter of each registration's lists
   for reg in list(regs):
@@ -498,8 +498,10 @@ def oracle(case, impl):
       allp = reg['sig']['pos'] + reg['sig']['kwonly']
       sec = record.setdefault(('/'.join(scope), reg['_selector']), {})
       cand = {}
+      # (a positional-only parameter is not configurable, D56: its default is not Gin's to supply on a replay)
+      po = {p[0] for p in reg['sig']['pos'][:reg['sig'].get('posonly', 0)]}
       for n, d in allp:
-        if d is not None and not ((reg['allow'] and n not in reg['allow']) or (reg['deny'] and n in reg['deny'])):
+        if d is not None and n not in po and not ((reg['allow'] and n not in reg['allow']) or (reg['deny'] and n in reg['deny'])):
           if _representable(d['v']):
             cand[n] = d['v']
       cand.update(ov)
